@@ -43,7 +43,7 @@ def generate(ctx):
     gl = ["SPECIFICATION Spec", "VIEW GenView", "ACTION_CONSTRAINT Emit", "CHECK_DEADLOCK FALSE"]
     # (limit set, connection ids, two transports?)
     sets = ([("LimSmall", 2, False), ("LimNone", 2, False), ("LimTwo", 2, False), ("LimAsym", 2, False), ("LimLeak", 3, False),
-             ("LimSmall", 3, False), ("LimTwo", 2, True), ("LimNone", 2, True)]
+             ("LimSmall", 3, False), ("LimIn3", 3, False), ("LimTwo", 2, True), ("LimNone", 2, True)]
             if ctx.quick() else
             [("LimSmall", 3, False), ("LimLeak", 3, False), ("LimAsym", 3, False), ("LimNone", 2, False), ("LimTwo", 2, False),
              ("LimSmall", 2, True), ("LimNone", 2, True), ("LimTwo", 2, True)])
@@ -53,10 +53,17 @@ def generate(ctx):
         base = TWO if two else BASE
         b, g = tlc_generate(ctx, "ConnMgrMC.tla", write_cfg(ctx, "gen_%s%d%s.cfg" % (lim, mc, "two" if two else ""), dict(base, Limits="<- " + lim, MaxCid=mc), gl), timeout=3000)
         if ctx.quick() and len(b) > 12000:
-            # quick tier: a seeded sample of the deeper graph, the thorough tier replays all of it
+            # quick tier: a seeded sample of the deeper graph (the thorough tier replays all of it); behaviours
+            # ending in a rare transition (outbound connection rejected by the limit, failed accept) are all kept
             g["sampled_from"] = len(b)
-            b = random.Random(ctx.seed).sample(b, 9000)
+            rare = [x for x in b if x.get("tag")]
+            rest = [x for x in b if not x.get("tag")]
+            rnd = random.Random(ctx.seed)
+            if len(rare) > 5000:
+                rare = rnd.sample(rare, 5000)
+            b = rare + rnd.sample(rest, min(len(rest), max(0, 9000 - len(rare))))
             g["behaviours"] = len(b)
+            g["rare_kept"] = len(rare)
         behs += b
         g["cfg"] = "%s/MaxCid=%d%s" % (lim, mc, "/tcp+ws" if two else "")
         stats.append(g)
